@@ -132,7 +132,7 @@ theorem star_pass2Z (cfg : Inline.Cfg) (f : Nat) (hs : EscSup cfg.esc) (h1 : '*'
             L + (K2.em st' '_' β).stars := by
           simp only [List.length_append, hc1, hL, K2.stars, show ¬ ('_' = '*') by decide, if_false]
         simp only [hlen2] at this
-        simp only [stage2L, item2_em, hcl1, hcl2, if_false, if_true, nodesS, itS, hk, hm'',
+        simp only [stage2L, item2_em, hcl1, hcl2, if_false, nodesS, itS, hk, hm'',
           show ¬ ('_' = '*') by decide, List.append_assoc]
         rw [hZ', show g + (count1 1 β.segs + itS r) =
           (g + itS r) + (nodes1 1 cfg.esc (m + escCount cfg.esc β.u0) n0 β.segs).length by rw [hc1]; omega]
@@ -267,7 +267,7 @@ theorem under_pass2Z (cfg : Inline.Cfg) (f : Nat) (hs : EscSup cfg.esc) (h1 : '*
         (not_mem_of_append3 hA (not_mem_placeholder (by decide) _) (hres _)) hokr hu' hz1 hz2
       rw [hnodes]
       simp only [stage2L, itU, hn, hn3, hne2, if_false, Nat.zero_add, hun, Nat.add_zero,
-        List.nil_append, List.append_assoc] at this ⊢
+        List.append_assoc] at this ⊢
       exact this
     · cases hk : s.k with
       | code n b => rw [hk] at hc; simp [K2.cls] at hc
@@ -319,7 +319,7 @@ theorem under_pass2Z (cfg : Inline.Cfg) (f : Nat) (hs : EscSup cfg.esc) (h1 : '*
         rw [hdata, hiLoop_step _ _ _ 15 0 st (by omega) _ _ _ _ hstep]
         simp only [if_true]
         rw [← hZ']
-        simp only [hun, List.append_assoc] at this ⊢
+        simp only [hun] at this ⊢
         exact this
 
 /-! ### 59. paragraphs of several lines separated by hard breaks: the stages of the pattern loop -/
@@ -372,7 +372,7 @@ theorem stageF_flatLs (esc : List Char) (more : List Ln) :
     obtain ⟨hc1, hc2⟩ := flat2_counts esc l.segs
     simp only [flatLs, stageF, stageF_append, itemF, FKind.bump, FKind.isCode, Bool.false_eq_true, if_false, if_true,
       stageLs, hc1, hc2, stageF_flatten2 esc l.segs _ _ n1 n2,
-      ih _ _ (nb + 1) (n1 + starsT l.segs) (n2 + undersT l.segs), List.append_assoc]
+      ih _ _ (nb + 1) (n1 + starsT l.segs) (n2 + undersT l.segs)]
 
 theorem nodesS_length (esc : List Char) (segs : List Seg2) :
     ∀ m n0 n1, (nodesS esc m n0 n1 segs).length = starsT segs := by
@@ -600,7 +600,7 @@ theorem applyPattern_br (cfg : Inline.Cfg) (hi : HI) (A R : Str) (hA : '\n' ∉ 
     simpa [List.append_assoc, brS] using this
   have t0 : Node.truthy none = false := rfl
   simp only [applyPattern, hfm]
-  simp [mkEl, hiNode, hiOpt, hiNodes, stashNode, t0, hd, Node.el, brS]
+  simp [mkEl, hiNode, hiOpt, hiNodes, stashNode, t0, hd, brS]
 
 theorem nl_not_mem_stage2L {esc : List Char} (hs : EscSup esc) (lv : Nat) (segs : List Seg2) (hok : Segs2OK esc segs)
     (hpl : ∀ s ∈ segs, ∀ c ∈ s.t, plainCh c) (m n0 n1 n2 : Nat) : '\n' ∉ stage2L esc lv m n0 n1 n2 segs := by
@@ -651,7 +651,7 @@ theorem break_passLs (cfg : Inline.Cfg) (hi : HI) (hs : EscSup cfg.esc) (more : 
     rw [show g + (r.length + 1) = (g + r.length) + 1 by omega, hiLoop_step _ _ _ 10 0 st (by omega) _ _ _ _ hstep]
     simp only [if_true]
     rw [this]
-    simp [List.replicate_succ, List.append_assoc]
+    simp [List.replicate_succ]
 
 /-! #### patterns 2–9, 11 and 12 on a text with line feeds -/
 
@@ -916,7 +916,7 @@ theorem handleInlineTop_P (cfg : Inline.Cfg) (hE : EscOK cfg.esc) (hs : EscSup c
   have ebr := break_passLs cfg hi hs more (resid cfg.esc ne t0 ++ stage2L cfg.esc 1 m1 n0 0 0 segs) mL nL 0 0 0
     { st with stash := st.stash ++ codesF F ++ stashOf cfg.esc t0 ++ stashOfF cfg.esc F }
     (x + 1 + 1 + itULs more + itU segs + 1 + itSLs more + itS segs + 1 + 2 + 1) hnlA hmore
-  simp only [List.length_append, hlen0, stashOfF_length, hn0, hne, hm1, hnb, List.append_assoc,
+  simp only [List.length_append, hlen0, stashOfF_length, hn0, List.append_assoc,
     show n0 + ((codesF F).length + (escCount cfg.esc t0 + escCountF cfg.esc F)) = nb by omega] at ebr
   rw [← hD1]
   simp only [List.append_assoc]
@@ -958,7 +958,7 @@ theorem handleInlineTop_P (cfg : Inline.Cfg) (hE : EscOK cfg.esc) (hs : EscSup c
     { st with stash := st.stash ++ (codesF F ++ (stashOf cfg.esc t0 ++ (stashOfF cfg.esc F ++
         List.replicate more.length (.node (mkEl "br"))))) }
     (x + 1 + 1 + itULs more + itU segs + 1 + itSLs more) hs0 hok
-  simp only [List.length_append, hlen0, stashOfF_length, hn0, hne, hm1, hnb, hn1, hN1, List.length_replicate,
+  simp only [List.length_append, hlen0, stashOfF_length, hn0, hN1, List.length_replicate,
     show n0 + ((codesF F).length + (escCount cfg.esc t0 + (escCountF cfg.esc F + more.length))) = n1 by omega] at esp
   rw [show 13 + 1 = 14 from rfl, ← hD2, ← hhi, esp]
   have hstar2 : '*' ∉ resid cfg.esc ne t0 ++ stage2L cfg.esc 2 m1 n0 n1 0 segs := by
@@ -1046,7 +1046,7 @@ theorem handleInlineTop_P (cfg : Inline.Cfg) (hE : EscOK cfg.esc) (hs : EscSup c
     (applyPattern_em_none cfg hi 15 (Or.inr rfl) _ _ (by simpa using hundAll))]
   simp only [Bool.false_eq_true, if_false]
   simp only [hiLoop, patternCount, show ¬ (15 + 1 < 16) by omega, if_false]
-  simp [List.append_assoc, brItems]
+  simp [brItems]
 
 /-! ### 60. `__processPlaceholders` on the residue of a paragraph with hard breaks -/
 
@@ -1105,7 +1105,7 @@ theorem ppLoop_L2K (esc : List Char) (S : List StashItem) (nested : Node → Opt
 
 theorem procNode_br (f : Str → Bool → Node → Bool → Option (List Node × Node)) :
     procNode f (mkEl "br") = some (mkEl "br") := by
-  simp [procNode, petTail, petText, procKids, mkEl, Node.truthy, Node.el]
+  simp [procNode, petTail, petText, procKids, mkEl, Node.truthy]
 
 /-- every line's hard break and items are where the placeholders say, and `nested` resolves them -/
 def LayLs (esc : List Char) (S : List StashItem) (nested : Node → Option Node) :
@@ -1203,11 +1203,11 @@ theorem layLs_of (esc : List Char) (hs : EscSup esc) (S : List StashItem) (f : N
     simp only [List.length_append] at hnb
     rw [nodesSLs, List.length_append, nodesS_length] at hn2
     have hflat : S = P1 ++ (codes2 l.segs ++ (codesLs r ++ (P2 ++ (stashOf esc l.t0 ++ (escs2 esc l.segs ++ (escsLs esc r ++ (P3 ++ ([StashItem.node (mkEl "br")] ++ (brItems r.length ++ (P4 ++ (nodesS esc (m + escCount esc l.t0) nL n1 l.segs ++ (nodesSLs esc (m + escCount esc l.t0 + escT esc l.segs) (nL + codesT l.segs) (n1 + starsT l.segs) r ++ (P5 ++ (nodesU esc (m + escCount esc l.t0) nL n1 l.segs ++ (nodesULs esc (m + escCount esc l.t0 + escT esc l.segs) (nL + codesT l.segs) (n1 + starsT l.segs) r ++ (P6)))))))))))))))) := by
-      rw [hS]; simp only [List.append_assoc, List.cons_append, List.nil_append, List.singleton_append]
+      rw [hS]; simp only [List.append_assoc, List.cons_append, List.nil_append]
     refine ⟨?_, procNode_br _, ?_, ?_, ?_⟩
     · -- the `br` element
       have e : S = (P1 ++ codes2 l.segs ++ codesLs r ++ P2 ++ stashOf esc l.t0 ++ escs2 esc l.segs ++ escsLs esc r ++ P3) ++ (StashItem.node (mkEl "br") :: (brItems r.length ++ (P4 ++ (nodesS esc (m + escCount esc l.t0) nL n1 l.segs ++ (nodesSLs esc (m + escCount esc l.t0 + escT esc l.segs) (nL + codesT l.segs) (n1 + starsT l.segs) r ++ (P5 ++ (nodesU esc (m + escCount esc l.t0) nL n1 l.segs ++ (nodesULs esc (m + escCount esc l.t0 + escT esc l.segs) (nL + codesT l.segs) (n1 + starsT l.segs) r ++ (P6))))))))) := by
-        rw [hflat]; simp only [List.append_assoc, List.cons_append, List.nil_append, List.singleton_append]
+        rw [hflat]; simp only [List.append_assoc, List.cons_append, List.nil_append]
       rw [e]
       exact getElem?_at _ _ _ _ (by simp only [List.length_append, hst0]; omega)
     · -- the escape codes of the line
@@ -1248,7 +1248,7 @@ theorem layLs_of (esc : List Char) (hs : EscSup esc) (S : List StashItem) (f : N
         (n2 + undersT l.segs) (P1 ++ codes2 l.segs) (P2 ++ (stashOf esc l.t0 ++ escs2 esc l.segs))
         (P3 ++ [.node (mkEl "br")]) (P4 ++ nodesS esc (m + escCount esc l.t0) nL n1 l.segs)
         (P5 ++ nodesU esc (m + escCount esc l.t0) nL n1 l.segs) P6
-      · rw [hflat]; simp only [List.append_assoc, List.cons_append, List.nil_append, List.singleton_append]
+      · rw [hflat]; simp only [List.append_assoc, List.cons_append, List.nil_append]
       · simp only [List.length_append]; omega
       · simp only [List.length_append, hst0]; omega
       · simp only [List.length_append, List.length_cons, List.length_nil]; omega
@@ -1268,8 +1268,8 @@ def linesKids (esc : List Char) : List Ln → List Node
 theorem lt_br (x : Str) (res : List Node) (par : Node) :
     lt x (mkEl "br" :: res, par) = ({ mkEl "br" with tail := optStr x } :: res, par) := by
   cases x with
-  | nil => simp [lt, linkText, optStr, mkEl, Node.el]
-  | cons c r => simp [lt, linkText, optStr, mkEl, Node.el, Node.truthy]
+  | nil => simp [lt, linkText, optStr, mkEl]
+  | cons c r => simp [lt, linkText, optStr, mkEl, Node.truthy]
 
 theorem foldLs_closed (esc : List Char) (more : List Ln) :
     ∀ (res : List Node) (par : Node), foldLs esc more (res, par) = ((linesKids esc more).reverse ++ res, par) := by
@@ -1278,7 +1278,7 @@ theorem foldLs_closed (esc : List Char) (more : List Ln) :
   | cons l r ih =>
     intro res par
     simp only [foldLs, lt_br, foldL2_closed, ih, linesKids, List.reverse_cons, List.reverse_append, List.append_assoc,
-      brT, List.singleton_append, List.cons_append, List.nil_append]
+      brT, List.cons_append, List.nil_append]
 
 theorem costK_le (esc : List Char) (segs : List Seg2) (t : Str) (m m' n0 n1 n2 : Nat) :
     costK esc t segs ≤ (resid esc m t ++ stage2L esc 3 m' n0 n1 n2 segs).length := by
@@ -1636,7 +1636,7 @@ theorem mapTree_brT (esc : List Char) (t : Str) (ht : t ≠ [] → startsVisible
           show isSpace Inline.STX = false by decide]
       · simp [coded, hm, optStr, TreeProc.blankOrNone, Node.truthy, isBlank, hc]
   cases t with
-  | nil => simp [brT, brP, mkEl, Node.el, TreeProc.mapTree, TreeProc.mapKids, TreeProc.brRule, TreeProc.preRule,
+  | nil => simp [brT, brP, mkEl, TreeProc.mapTree, TreeProc.mapKids, TreeProc.brRule, TreeProc.preRule,
       TreeProc.tagIs, optStr, coded, TreeProc.blankOrNone, Node.truthy]
   | cons c r =>
     have hb := hbl
@@ -1648,7 +1648,7 @@ theorem mapTree_brT (esc : List Char) (t : Str) (ht : t ≠ [] → startsVisible
       | cons a b => exact ⟨a, b, rfl⟩
     rw [hab] at hb
     have hb' : TreeProc.blankOrNone (some (a :: b)) = false := hb
-    simp [brT, brP, mkEl, Node.el, TreeProc.mapTree, TreeProc.mapKids, TreeProc.brRule, TreeProc.preRule,
+    simp [brT, brP, mkEl, TreeProc.mapTree, TreeProc.mapKids, TreeProc.brRule, TreeProc.preRule,
       TreeProc.tagIs, optStr, hab, hb']
 
 theorem mapKids_comp (f g : Node → Node) (L : List Node) :
@@ -1665,7 +1665,7 @@ theorem map_linesKids (esc : List Char) (more : List Ln) (h : ∀ l ∈ more, l.
       mapTree_brT esc l.t0 (h l List.mem_cons_self), mapTree_tailed2, ih (fun x hx => h x (List.mem_cons_of_mem _ hx))]
 
 theorem pretty_P (esc : List Char) (t0 : Str) (segs : List Seg2) (more : List Ln)
-    (hne : t0 ≠ [] ∨ segs ≠ []) (hfirst : t0 ≠ [] → startsVisible t0 = true)
+    (_hne : t0 ≠ [] ∨ segs ≠ []) (_hfirst : t0 ≠ [] → startsVisible t0 = true)
     (hl : ∀ l ∈ more, l.t0 ≠ [] → startsVisible l.t0 = true) :
     TreeProc.mapTree TreeProc.preRule (TreeProc.mapTree TreeProc.brRule
       (TreeProc.prettifyETree TreeProc.defaultBlockLevel (pMid esc t0 segs more))) = pPretty esc t0 segs more := by
@@ -1720,7 +1720,7 @@ theorem unescapeTree_brP (esc : List Char) (t : Str) (ht : Inline.STX ∉ t) :
     simp only [TreeProc.unescapeText, show ¬ ('\n' = TreeProc.STX) by decide, if_false, hu, Option.map_some]
   have t1 : Node.truthy (some ('\n' :: coded esc t)) = true := rfl
   have t0 : Node.truthy none = false := rfl
-  simp [brP, brF, mkEl, Node.el, TreeProc.unescapeTree, TreeProc.unescAttrs, TreeProc.unescapeKids, t1, t0, h1]
+  simp [brP, brF, mkEl, TreeProc.unescapeTree, TreeProc.unescAttrs, TreeProc.unescapeKids, t1, t0, h1]
 
 /-- no STX in the texts of the lines -/
 def NoStxLs (more : List Ln) : Prop := ∀ l ∈ more, Inline.STX ∉ l.t0 ∧ NoStx2 l.segs
@@ -1755,7 +1755,7 @@ def brOutS : Str := ['<', 'b', 'r', ' ', '/', '>', '\n']
 theorem serialize_brF (t : Str) : Ser.serialize .xhtml (brF t) = brOutS ++ Ser.escCdata t := by
   have h1 : Ser.isEmptyTag ['b', 'r'] = true := by decide
   have t1 : Node.truthy (some ('\n' :: t)) = true := rfl
-  simp [brF, mkEl, Node.el, Ser.serialize, Ser.element, Ser.sortAttrs, Ser.writeAttrs, h1, t1, escCdata_nl, brOutS]
+  simp [brF, mkEl, Ser.serialize, Ser.element, Ser.sortAttrs, Ser.writeAttrs, h1, t1, escCdata_nl, brOutS]
 
 theorem serializeList_app (fmt : Ser.Fmt) (a b : List Node) :
     Ser.serializeList fmt (a ++ b) = Ser.serializeList fmt a ++ Ser.serializeList fmt b := by
@@ -1807,7 +1807,7 @@ theorem weight_lines (esc : List Char) (more : List Ln) :
     omega
 
 theorem kids_still {cfg : Inline.Cfg} (hs : EscSup cfg.esc) (b : Nat) (segs : List Seg2) (hok : Segs2OK cfg.esc segs)
-    (hpl : ∀ s ∈ segs, ∀ x ∈ s.t, plainCh x) (hb : (flatten2 segs).length ≤ b) :
+    (_hpl : ∀ s ∈ segs, ∀ x ∈ s.t, plainCh x) (hb : (flatten2 segs).length ≤ b) :
     ∀ c ∈ segs.map (tailed2 cfg.esc), StillBelow cfg b c := by
   intro c hc
   obtain ⟨s, hs', rfl⟩ := List.mem_map.1 hc
@@ -1841,7 +1841,7 @@ theorem lines_still {cfg : Inline.Cfg} (hs : EscSup cfg.esc) (b : Nat) (more : L
     simp only [flatLs, List.length_cons, List.length_append] at hb
     simp only [linesKids, List.mem_cons, List.mem_append] at hc
     rcases hc with rfl | hc | hc
-    · exact stillBelow_of_childless cfg b _ (by simp [brT, mkEl, Node.el]) (fun x hx => by simp [brT, mkEl, Node.el] at hx)
+    · exact stillBelow_of_childless cfg b _ (by simp [brT, mkEl]) (fun x hx => by simp [brT, mkEl] at hx)
     · exact kids_still hs b l.segs hl.hsegs (fun s hs' x hx => hl.tplain x (Or.inr ⟨s, hs', hx⟩)) (by omega) c hc
     · exact ih (fun x hx => hok x (List.mem_cons_of_mem _ hx)) (by omega) c hc
 
@@ -2346,7 +2346,7 @@ theorem printInlines_P (c : List DocSpec.Inline) (h : pItemsOK c = true) : Print
       refine ⟨[], [], ⟨t0, segs⟩ :: more, st', ?_, hd, by rw [brSplit_br]; rfl, by rw [brSplit_br]; rfl, by simp,
         trivial, ?_⟩
       · simp only [printInlines, printInline, hp]
-        simp [escAll, flatten2, flatLs, rawF, FKind.src, brS, S, rawF_append, List.append_assoc]
+        simp [escAll, flatten2, flatLs, rawF, FKind.src, brS, S, rawF_append]
       · rw [brSplit_br]
         exact ⟨⟨ht0, hm, hds, hu⟩, hlr⟩
     · have hb' : isBr x = false := by simpa using hb
@@ -3112,7 +3112,7 @@ theorem startsOk_brSplit (c : List DocSpec.Inline) (h : startsOk c = true) : sta
   cases c with
   | nil => simp [startsOk] at h
   | cons x r =>
-    cases x <;> first | (simp [startsOk] at h; done) | (rw [brSplit_cons_of _ _ rfl]; simpa [startsOk] using h)
+    cases x <;> first | (simp [startsOk] at h; done) | (rw [brSplit_cons_of _ _ rfl]; simp_all [startsOk])
 
 theorem pItemsOK_of_wf (c : List DocSpec.Inline) (hp : c.all isBrItem = true)
     (hw : wfInlineList false .none true c = true) : pItemsOK c = true := by
